@@ -18,10 +18,16 @@ func emit(v any) {
 	b, err := json.Marshal(v)
 	if err != nil {
 		fmt.Fprintln(os.Stderr, "marshal:", err)
-		os.Exit(2)
+		os.Exit(4)
 	}
 	out.Write(b)
 	out.WriteByte('\n')
+}
+
+func flushOut() {
+	emitMu.Lock()
+	out.Flush()
+	emitMu.Unlock()
 }
 
 type M = map[string]any
@@ -29,10 +35,10 @@ type M = map[string]any
 func main() {
 	if len(os.Args) < 2 {
 		fmt.Fprintln(os.Stderr, "usage: verifharness <mode> [args]")
-		os.Exit(2)
+		os.Exit(4)
 	}
 	out = bufio.NewWriterSize(os.Stdout, 1<<20)
-	defer out.Flush()
+	defer flushOut()
 	switch os.Args[1] {
 	case "graph":
 		graphMain(os.Args[2:])
@@ -42,8 +48,8 @@ func main() {
 			return
 		}
 		fmt.Fprintln(os.Stderr, "unknown mode", os.Args[1])
-		out.Flush()
-		os.Exit(2)
+		flushOut()
+		os.Exit(4)
 	}
 }
 
